@@ -152,6 +152,10 @@ EXC_PARENT: Dict[str, Optional[str]] = {
     "BadPluginError": "Exception",
     "BadPluginFixError": "Exception",
     "BadTokenizationError": "Exception",
+    "JSONDecodeError": "ValueError",
+    "TOMLDecodeError": "ValueError",
+    "YAMLError": "Exception",
+    "MarkedYAMLError": "YAMLError",
     "PyMarkdownApiException": "Exception",
     "PyMarkdownApiArgumentException": "PyMarkdownApiException",
     "PyMarkdownApiNoFilesFoundException": "PyMarkdownApiException",
